@@ -42,8 +42,11 @@ def extra(ctx):
         route = "struct" if "tp-retrigger-struct" in c.tags else "program"
         got = [impl for (_op, impl) in c.ops]
         if got == expected:
-            # the defect is gone: the model (which mirrors it) will disagree and say so
-            res["coverage"]["tp_witness_" + route] = "IEC answer (finding no longer reproduces)"
+            # the defect is gone: the harness then selects the patched TP model (tpStepFixed), for which the
+            # full theorems c04_tp_fixed_trace / c04_tp_fixed_exec_trace are proved
+            res["coverage"]["tp_witness_" + route] = (
+                "IEC answer: finding C04-tp-retrigger no longer reproduces; TP compared against the patched model "
+                "(full theorem c04_tp_fixed_trace)")
             continue
         first = next(i for i, (g, e) in enumerate(zip(got, expected)) if g != e)
         sig = "tp-retrigger:call%d:%s!=%s" % (first + 1, got[first], expected[first])
